@@ -183,11 +183,11 @@ pub fn families(prop: &str, tier: Tier) -> Vec<Family> {
             // the same through the WithPositions adapter (it forwards set_mode/current_mode/mode_name)
             f.push(Family {
                 stateless_depth: 0,
-                name: "mode-graphs-2 through WithPositions".into(),
+                name: "mode-graphs-2 through WithPositions, cached build()".into(),
                 cfgs: mode_graphs(2, &lists[..4], 11),
                 inputs: inputs(&['a', 'b', 'x'], 3),
                 ops: OpSet { next: true, peeks: vec![], adv: vec![], offsets: Offsets::None, set_modes: true, with_positions: true, positions: false, with_offset_ops: false },
-                describe: "WithPositions<FindMatches> driven with next/set_mode on every 11th transition table of 4x4 pattern lists".into(),
+                describe: "WithPositions<FindMatches> driven with next/set_mode on every 11th transition table of 4x4 pattern lists; the scanners come from ScannerBuilder::build(), i.e. through the process-wide cache, one after the other in one process, and differ in nothing but their transitions".into(),
             });
             // unusual numbers: token types at the u16/u32 borders in transitions, a mode without
             // patterns as a transition target, a transition to the last mode, equal token types in
@@ -410,7 +410,10 @@ pub fn run(prop: &'static str, tier: Tier) -> ! {
                     return;
                 }
             };
-            let sc = match bridge::catch(|| cfg.build_uncached()) {
+            // families whose name says so go through the process-wide cache: their configurations
+            // differ in nothing but the transition tables
+            let cached = fam.name.contains("cached build()");
+            let sc = match bridge::catch(|| if cached { cfg.build_cached() } else { cfg.build_uncached() }) {
                 Ok(Ok(sc)) => sc,
                 _ => {
                     acc.build_errors += 1;
@@ -443,7 +446,13 @@ pub fn run(prop: &'static str, tier: Tier) -> ! {
                         acc.viol.add("", || Violation {
                             key: String::new(),
                             summary: format!("{} on {:?}: after [{}] then {}: {}", cfg.show(), input, d.history.iter().map(|o| o.show()).collect::<Vec<_>>().join(", "), d.at.show(), d.detail),
-                            replay: d.replay(cfg, input, fam.ops.with_positions),
+                            replay: {
+                                let mut r = d.replay(cfg, input, fam.ops.with_positions);
+                                if cached {
+                                    r["built_with"] = json!("ScannerBuilder::build() in a process that built the family's other configurations (same modes and patterns, other transitions) before");
+                                }
+                                r
+                            },
                         });
                         stop = true;
                         break; // shortest history first (BFS order)
